@@ -9,6 +9,7 @@ import (
 	"github.com/lmorg/murex/config"
 	"github.com/lmorg/murex/lang/stdio"
 	"github.com/lmorg/murex/utils"
+	"github.com/lmorg/murex/utils/verifhook"
 )
 
 // Read is the standard Reader interface Read() method.
@@ -20,6 +21,7 @@ func (stdin *Stdin) Read(p []byte) (i int, err error) {
 		default:
 		}
 
+		verifhook.Yield(verifhook.SiteStreamRead)
 		stdin.mutex.Lock()
 		l := len(stdin.buffer)
 		deps := stdin.dependents
@@ -36,6 +38,7 @@ func (stdin *Stdin) Read(p []byte) (i int, err error) {
 		break
 	}
 
+	verifhook.Yield(verifhook.SiteStreamReadCopy)
 	stdin.mutex.Lock()
 
 	if len(p) >= len(stdin.buffer) {
@@ -86,6 +89,7 @@ func (stdin *Stdin) ReadAll() ([]byte, error) {
 		default:
 		}
 
+		verifhook.Yield(verifhook.SiteStreamReadAll)
 		stdin.mutex.Lock()
 		closed := stdin.dependents < 1
 		stdin.mutex.Unlock()
